@@ -39,6 +39,15 @@ void enum_cleanup()
                  __func__, __LINE__, pc->GetOrigLine(), get_token_name(pc->GetType()));
          Chunk *prev = pc->GetPrevNcNnlNi();                         // Issue #3604
 
+         // the last enumerator is not part of a preprocessor line (#endif, #define, #pragma ...)
+         // that stands in front of the closing brace
+         while (  prev->IsNotNullChunk()
+               && prev->TestFlags(PCF_IN_PREPROC)
+               && !pc->TestFlags(PCF_IN_PREPROC))
+         {
+            prev = prev->GetPrevNcNnlNi();
+         }
+
          if (prev->IsNotNullChunk())
          {
             if (prev->Is(CT_COMMA))
